@@ -584,4 +584,82 @@ example : (statusAfter { status := 3, changes := 0 } [2, 3] .assignOnly).status 
     (statusAfter { status := 3, changes := 0 } [] .assignOnly).status = 0 ∧
     (statusAfter { status := 3, changes := 0 } [3] (.command 0)).status = 0 := by decide
 
+/-! ## consumers sharing a descriptor partition its content -/
+
+private theorem takeUntil_raw (d : Char) (s : List Char) :
+    (takeUntil d s).1 ++ (if (takeUntil d s).2.1 then [d] else []) ++ (takeUntil d s).2.2 = s ∧
+    d ∉ (takeUntil d s).1 ∧ ((takeUntil d s).2.1 = false → (takeUntil d s).2.2 = []) := by
+  induction s with
+  | nil => simp [takeUntil]
+  | cons c cs ih =>
+    by_cases hc : c = d
+    · subst hc; simp [takeUntil]
+    · obtain ⟨h1, h2, h3⟩ := ih
+      simp only [takeUntil, hc, ↓reduceIte]
+      refine ⟨by simpa using h1, ?_, h3⟩
+      intro hm
+      rcases List.mem_cons.mp hm with h | h
+      · exact hc h.symm
+      · exact h2 h
+
+private theorem takeN_raw (d : Char) (n : Nat) : ∀ s : List Char,
+    (takeN d n s).1 ++ (if (takeN d n s).2.1 then [d] else []) ++ (takeN d n s).2.2 = s ∧
+    (takeN d n s).1.length ≤ n ∧ d ∉ (takeN d n s).1 := by
+  induction n with
+  | zero => intro s; simp [takeN]
+  | succ n ih =>
+    intro s
+    cases s with
+    | nil => simp [takeN]
+    | cons c cs =>
+      by_cases hc : c = d
+      · subst hc; simp [takeN]
+      · obtain ⟨h1, h2, h3⟩ := ih cs
+        simp only [takeN, hc, ↓reduceIte]
+        refine ⟨by simpa using h1, by simp; omega, ?_⟩
+        intro hm
+        rcases List.mem_cons.mp hm with h | h
+        · exact hc h.symm
+        · exact h3 h
+
+private theorem applyOp_raw (op : ReadOp) (s : List Char) : (applyOp op s).1.raw ++ (applyOp op s).2 = s := by
+  cases op with
+  | line d => simpa [applyOp, pieceOf] using (takeUntil_raw d s).1
+  | nchars n => simpa [applyOp, pieceOf] using (takeN_raw '\n' n s).1
+  | mapfile1 => simpa [applyOp, pieceOf] using (takeUntil_raw '\n' s).1
+
+/-- **Nothing is lost between consumers of one descriptor**: for every sequence of `read`,
+`read -d`, `read -n`, `mapfile -n 1` and every content, what they removed, in order, followed by
+what is left for the next reader (`cat`), is the content — whatever the descriptor is. -/
+theorem consumers_partition_input (ops : List ReadOp) : ∀ s : List Char,
+    ((runOps ops s).1.flatMap (·.raw)) ++ (runOps ops s).2 = s := by
+  induction ops with
+  | nil => intro s; simp [runOps]
+  | cons op ops ih =>
+    intro s
+    have h1 := applyOp_raw op s
+    have h2 := ih (applyOp op s).2
+    simp only [runOps, List.flatMap_cons, List.append_assoc]
+    rw [h2, h1]
+
+/-- **Each `read` takes exactly one line**: it removes its value plus the delimiter and nothing
+else (at end of input: the unterminated tail, leaving nothing); the value holds no delimiter.
+`read -n k` removes at most `k` characters (plus the newline if it came first). -/
+theorem each_read_takes_exactly_its_line (d : Char) (n : Nat) (s : List Char) :
+    ((applyOp (.line d) s).1.raw = (applyOp (.line d) s).1.value ++ [d] ∨
+      ((applyOp (.line d) s).1.raw = (applyOp (.line d) s).1.value ∧ (applyOp (.line d) s).2 = [])) ∧
+    d ∉ (applyOp (.line d) s).1.value ∧
+    (applyOp (.nchars n) s).1.value.length ≤ n ∧ (applyOp (.nchars n) s).1.raw.length ≤ n + 1 := by
+  have h := takeUntil_raw d s
+  have hn := takeN_raw '\n' n s
+  refine ⟨?_, by simpa [applyOp, pieceOf] using h.2.1, by simpa [applyOp, pieceOf] using hn.2.1, ?_⟩
+  · cases hb : (takeUntil d s).2.1 with
+    | true => left; simp [applyOp, pieceOf, hb]
+    | false => right; simp [applyOp, pieceOf, hb, h.2.2 hb]
+  · simp only [applyOp, pieceOf]
+    split <;> simp <;> omega
+
+example : let r := runOps [.line '\n', .nchars 2, .line ':', .mapfile1] "l1\nabc:d\ne\nf\nrest".toList
+    r.1.map (·.value) = ["l1".toList, "ab".toList, "c".toList, "d\n".toList] ∧ r.2 = "e\nf\nrest".toList := by decide
+
 end BrushVerif.C11
